@@ -3,6 +3,7 @@ randdrive) against the REAL prov library and records, per call, what the
 public API shows.  It makes no judgement (DESIGN 2.4)."""
 import json
 import logging
+import os
 import sys
 
 logging.getLogger("rdflib").setLevel(logging.ERROR)
@@ -418,6 +419,37 @@ class World(object):
                 self.rt = roundtrip.run_rt(doc, a["fmt"], a["opts"], self.voc)
                 return none
             return run
+        if op == "Load":
+            import roundtrip
+            import foreign
+            doc = self.h[a["h"]]
+
+            def run():
+                src = roundtrip.proj_doc(doc, self.voc)
+                self.graph = {"src": src}
+                text = (foreign.render_json if a["fmt"] == "json" else foreign.render_xml)(src, a["fl"], self.voc)
+                return foreign.stability(text, a["fmt"], self.voc)
+            return run
+        if op == "Corpus":
+            import foreign
+            files = foreign.corpus_files(a["fmt"])
+            path = files[(a["idx"] - 1) % len(files)]
+            plain = Vocab(0, 0, True)
+
+            def run():
+                with open(path, encoding="utf-8") as fh:
+                    text = fh.read()
+                r0 = foreign.stability(text, a["fmt"], plain, xml_ok=False)
+                self.graph = {"res0": r0, "file": os.path.basename(path)}
+                if a["mut"] == "none":
+                    return r0
+                import random
+                mt = foreign.mutate_json(text, a["mut"], random.Random(a["idx"]))
+                if mt is None:
+                    self.graph["res0"] = dict(r0, exc="notapplicable")
+                    return r0
+                return foreign.stability(mt, a["fmt"], plain, xml_ok=False)
+            return run
         if op == "Dot":
             import roundtrip
             import lex_dot
@@ -615,7 +647,7 @@ class World(object):
         st["look"], st["typed"], st["copy"] = self.lookups()
         if a["op"] == "RT":
             st.update(self.rt)
-        if a["op"] in ("Graph", "Dot") and exc == "none":
+        if a["op"] in ("Graph", "Dot", "Load", "Corpus") and exc == "none":
             st.update(self.graph)
         if a["op"] == "Save":
             sv = self.save
